@@ -1408,3 +1408,8 @@ func WithParamAtoms(sub map[*ssa.Parameter]map[string]bool, f func()) {
 	}()
 	f()
 }
+
+// IsFailureValue reports whether v, as it stands (no path facts), is a rejecting result of kind fk.
+func IsFailureValue(v ssa.Value, fk FailKind) bool {
+	return isFailureValue(v, fk, &pathEnv{cells: map[*ssa.Alloc]ssa.Value{}, nonnil: map[ssa.Value]bool{}, isnil: map[ssa.Value]bool{}})
+}
